@@ -10,7 +10,11 @@ for fn in sorted(os.listdir(os.path.join(root, "tools", "checks.d"))):
     if fn.endswith(".json"):
         spec["checks"][fn[:-5]] = json.load(open(os.path.join(root, "tools", "checks.d", fn)))
 props = [json.loads(l)["id"] for l in open(os.path.join(root, "properties.jsonl")) if l.strip()]
+ready = set(open(os.path.join(root, "tools", "ready.txt")).read().split())
 for pid in list(spec["checks"]):
+    if pid not in ready:
+        spec["checks"].pop(pid)
+        continue
     if not os.path.isdir(os.path.join(root, "checks", pid.lower())):
         spec["checks"].pop(pid)
 checks = []
